@@ -15,8 +15,11 @@ Definition P (s : st) : nat := (len (rest s) + (if stuck s then 0 else 1))%nat.
 Definition wk (s : st) : Z := Z.of_N (steps s) - Z.of_N (spin s).
 Definition psi (s : st) : Z := wk s + K * Z.of_nat (P s).
 
-(* R, the work never decreases, and the potential rises by at most b *)
-Definition Q (b : Z) (s s' : st) : Prop := R s s' /\ wk s <= wk s' /\ psi s' <= psi s + b.
+(* iterations spun are part of the excess: excess - spin never decreases *)
+Definition sx (s : st) : Z := Z.of_N (excess s) - Z.of_N (spin s).
+
+(* R, the work never decreases, spin stays within excess, and the potential rises by at most b *)
+Definition Q (b : Z) (s s' : st) : Prop := R s s' /\ wk s <= wk s' /\ psi s' <= psi s + b /\ sx s <= sx s'.
 
 Lemma P_mono : forall s s', R s s' -> (P s' <= P s)%nat.
 Proof.
@@ -26,36 +29,37 @@ Proof.
   - destruct (stuck s'); lia.
 Qed.
 
-Lemma Q_of : forall b s s', R s s' -> wk s <= wk s' -> wk s' <= wk s + b -> Q b s s'.
+Lemma Q_of : forall b s s', R s s' -> wk s <= wk s' -> wk s' <= wk s + b -> sx s <= sx s' -> Q b s s'.
 Proof.
-  intros b s s' HR H0 H. split; [exact HR|]. split; [exact H0|]. unfold psi. pose proof (P_mono s s' HR). unfold K. lia.
+  intros b s s' HR H0 H Hx. split; [exact HR|]. split; [exact H0|]. split; [|exact Hx].
+  unfold psi. pose proof (P_mono s s' HR). unfold K. lia.
 Qed.
 
 Lemma Q_refl : forall s, Q 0 s s.
-Proof. intros s. split; [apply R_refl|]. split; lia. Qed.
+Proof. intros s. split; [apply R_refl|]. repeat split; lia. Qed.
 Lemma Q_trans : forall b1 b2 a b c, Q b1 a b -> Q b2 b c -> Q (b1 + b2) a c.
-Proof. intros b1 b2 a b c [H1 [H2 H3]] [H4 [H5 H6]]. split; [eapply R_trans; eauto|]. split; lia. Qed.
+Proof. intros b1 b2 a b c [H1 [H2 [H3 H3']]] [H4 [H5 [H6 H6']]]. split; [eapply R_trans; eauto|]. repeat split; lia. Qed.
 Lemma Q_le : forall b b' s s', Q b s s' -> b <= b' -> Q b' s s'.
-Proof. intros b b' s s' [H1 [H2 H3]] H. split; [exact H1|]. split; lia. Qed.
+Proof. intros b b' s s' [H1 [H2 [H3 H4]]] H. split; [exact H1|]. repeat split; lia. Qed.
 Lemma Q_R : forall b s s', Q b s s' -> R s s'.
 Proof. intros b s s' [H _]. exact H. Qed.
 Lemma Q_P : forall b s s', Q b s s' -> (P s' <= P s)%nat.
 Proof. intros b s s' [H _]. apply P_mono. exact H. Qed.
 (* a negative budget means input was consumed (or the decoder got stuck) *)
 Lemma Q_neg_P : forall b s s', Q b s s' -> b < 0 -> (P s' < P s)%nat.
-Proof. intros b s s' [H1 [H2 H3]] Hb. unfold psi, K in H3. nia. Qed.
+Proof. intros b s s' [H1 [H2 [H3 _]]] Hb. unfold psi, K in H3. nia. Qed.
 
 Lemma P0_stuck : forall s, P s = 0%nat -> stuck s = true.
 Proof. intros s H. unfold P in H. destruct (stuck s); [reflexivity|lia]. Qed.
 
 (* ---- state updates *)
 Ltac qof := intros; apply Q_of; [auto using R_set_error, R_force_error, R_add_ref, R_add_class, R_add_alloc, R_add_excess,
-  R_add_steps, R_set_corrupt, R_set_simple, R_reset_refs, R_spin_by|unfold wk; cbn; lia|unfold wk; cbn; lia].
+  R_add_steps, R_set_corrupt, R_set_simple, R_reset_refs, R_spin_by|unfold wk; cbn; lia|unfold wk; cbn; lia|unfold sx; cbn; lia].
 
 Lemma Q_set_error : forall s k, Q 0 s (set_error s k). Proof. qof. Qed.
 Lemma Q_force_error : forall s k, Q 0 s (force_error s k). Proof. qof. Qed.
 Lemma Q_add_ref : forall s r, Q 0 s (add_ref s r).
-Proof. intros. apply Q_of; [apply R_add_ref| |]; unfold wk, add_ref; destruct (simple s); cbn; lia. Qed.
+Proof. intros. apply Q_of; [apply R_add_ref| | |]; unfold wk, sx, add_ref; destruct (simple s); cbn; lia. Qed.
 Lemma Q_add_class : forall s c, Q 0 s (add_class s c). Proof. qof. Qed.
 Lemma Q_add_alloc : forall s n, Q 0 s (add_alloc s n). Proof. qof. Qed.
 Lemma Q_add_excess : forall s n, Q 0 s (add_excess s n). Proof. qof. Qed.
@@ -67,24 +71,26 @@ Lemma Q_spin_by : forall s n p, Q 0 s (spin_by s n p). Proof. qof. Qed.
 
 Lemma wk_set_rest : forall s r e d, wk (set_rest s r e d) = wk s + Z.of_N d.
 Proof. intros. unfold wk. cbn. lia. Qed.
+Lemma sx_set_rest : forall s r e d, sx (set_rest s r e d) = sx s.
+Proof. reflexivity. Qed.
 
 Lemma Q_next_byte : forall s, Q 1 s (snd (next_byte s)).
-Proof. intros s. apply Q_of; [apply R_next_byte| |]; rewrite next_byte_eq; cbn [snd]; rewrite wk_set_rest; lia. Qed.
+Proof. intros s. apply Q_of; [apply R_next_byte| | |]; rewrite next_byte_eq; cbn [snd]; rewrite ?wk_set_rest, ?sx_set_rest; lia. Qed.
 Lemma Q_skip1 : forall s, Q 1 s (skip1 s).
-Proof. intros s. apply Q_of; [apply R_skip1| |]; rewrite skip1_eq; rewrite wk_set_rest; lia. Qed.
+Proof. intros s. apply Q_of; [apply R_skip1| | |]; rewrite skip1_eq; rewrite ?wk_set_rest, ?sx_set_rest; lia. Qed.
 Lemma Q_read_int : forall s, Q 1 s (snd (read_int s)).
-Proof. intros s. apply Q_of; [apply R_read_int| |]; rewrite read_int_eq; cbn [snd]; rewrite wk_set_rest; lia. Qed.
+Proof. intros s. apply Q_of; [apply R_read_int| | |]; rewrite read_int_eq; cbn [snd]; rewrite ?wk_set_rest, ?sx_set_rest; lia. Qed.
 Lemma Q_until_semi : forall s, Q 1 s (snd (until_semi s)).
-Proof. intros s. apply Q_of; [apply R_until_semi| |]; rewrite until_semi_eq; rewrite wk_set_rest; lia. Qed.
+Proof. intros s. apply Q_of; [apply R_until_semi| | |]; rewrite until_semi_eq; rewrite ?wk_set_rest, ?sx_set_rest; lia. Qed.
 Lemma Q_read_time : forall s, Q 1 s (read_time s).
 Proof.
   intros s. rewrite read_time_eq. replace 1 with (1 + 0) by lia. eapply Q_trans; [|apply Q_add_ref].
-  apply Q_of; [apply R_set_rest; apply sl_readHMS| |]; rewrite wk_set_rest; lia.
+  apply Q_of; [apply R_set_rest; apply sl_readHMS| | |]; rewrite ?wk_set_rest, ?sx_set_rest; lia.
 Qed.
 Lemma Q_read_datetime : forall s, Q 1 s (read_datetime s).
 Proof.
   intros s. rewrite read_datetime_eq. replace 1 with (1 + 0) by lia. eapply Q_trans; [|apply Q_add_ref].
-  apply Q_of; [apply R_set_rest; apply sl_readDateTime| |]; rewrite wk_set_rest; lia.
+  apply Q_of; [apply R_set_rest; apply sl_readDateTime| | |]; rewrite ?wk_set_rest, ?sx_set_rest; lia.
 Qed.
 Lemma Q_inf_txt : forall s, Q 1 s (snd (inf_txt s)).
 Proof. intros s. unfold inf_txt. pose proof (Q_next_byte s) as H. destruct (next_byte s) as [b s1]. exact H. Qed.
@@ -92,7 +98,7 @@ Proof. intros s. unfold inf_txt. pose proof (Q_next_byte s) as H. destruct (next
 (* NextByte with something left (or the first NextByte at the end of input): the potential falls by K *)
 Lemma Q_next_byte_live : forall s, stuck s = false -> Q (1 - K) s (snd (next_byte s)).
 Proof.
-  intros s Hs. pose proof (Q_next_byte s) as [HR [Hw _]]. split; [exact HR|]. split; [exact Hw|].
+  intros s Hs. pose proof (Q_next_byte s) as [HR [Hw [_ Hx]]]. split; [exact HR|]. split; [exact Hw|]. split; [|exact Hx].
   assert (HP : (P (snd (next_byte s)) < P s)%nat).
   { unfold P at 2. rewrite Hs. rewrite next_byte_eq. cbn [snd]. unfold P, stuck, has_err. cbn [rest err set_rest].
     unfold s_nextByte. cbn [fst snd]. destruct (rest s) as [|b r] eqn:E.
@@ -201,9 +207,9 @@ Ltac getR := match goal with |- R ?s ?x => eapply Q_R; solveQ end.
 
 (* ---- the out-returning primitives *)
 Lemma Q_set_rest1 : forall s r e, (len r <= len (rest s))%nat -> Q 1 s (set_rest s r (merge (err s) e) 1).
-Proof. intros. apply Q_of; [apply R_set_rest; assumption| |]; rewrite wk_set_rest; lia. Qed.
+Proof. intros. apply Q_of; [apply R_set_rest; assumption| | |]; rewrite ?wk_set_rest, ?sx_set_rest; lia. Qed.
 Lemma Q_set_rest1_same : forall s r, (len r <= len (rest s))%nat -> Q 1 s (set_rest s r (err s) 1).
-Proof. intros. apply Q_of; [apply R_set_rest_same; assumption| |]; rewrite wk_set_rest; lia. Qed.
+Proof. intros. apply Q_of; [apply R_set_rest_same; assumption| | |]; rewrite ?wk_set_rest, ?sx_set_rest; lia. Qed.
 
 Lemma allQ_next_n : forall fx n s, allQ 1 s (next_n fx n s).
 Proof.
@@ -220,21 +226,29 @@ Proof.
     destruct (max_alloc <? Z.to_N n)%N; leafAQ.
 Qed.
 
+Lemma allQ_read_str_slow : forall fx n b w s, rest s = b :: w -> allQ 1 s (read_str_slow fx n (b :: w) s).
+Proof.
+  intros fx n b w s E. unfold read_str_slow.
+  assert (Hs : forall k, Q 1 s (set_rest s (skipn k (b :: w)) (err s) 1)).
+  { intros k. apply Q_set_rest1_same. rewrite E. apply len_skipn. }
+  pose proof (Q_set_rest1 s [] (Some EEOF)) as He. specialize (He ltac:(cbn; lia)).
+  destruct (str_scan _ false _ _ _); try leafAQ.
+  destruct ((off <? len (b :: w))%nat || _); [cbn [allQ]; apply Hs|].
+  destruct (fx_str fx); [leafAQ|].
+  destruct (wrap_int (n0 * 3) <? 0)%Z; [leafAQ|].
+  destruct (max_alloc <? _)%N; leafAQ.
+Qed.
+
 Lemma allQ_read_str : forall fx n s, allQ 1 s (read_str fx n s).
 Proof.
   intros fx n s. unfold read_str. destruct (n =? 0)%Z; [leafAQ|].
   destruct (rest s) as [|b w] eqn:E; [leafAQ|].
   assert (Hs : forall k, Q 1 s (set_rest s (skipn k (b :: w)) (err s) 1)).
   { intros k. apply Q_set_rest1_same. rewrite E. apply len_skipn. }
-  pose proof (Q_set_rest1 s [] (Some EEOF)) as He. specialize (He ltac:(cbn; lia)).
-  destruct (wrap_int (n * 3) <=? Z.of_nat (len (b :: w)))%Z.
-  - destruct (str_scan _ true _ _ _); try leafAQ.
-    destruct (len (b :: w) <? off)%nat; [leafAQ|cbn [allQ]; apply Hs].
-  - destruct (str_scan _ false _ _ _); try leafAQ.
-    destruct ((off <? len (b :: w))%nat || _); [cbn [allQ]; apply Hs|].
-    destruct (fx_str fx); [leafAQ|].
-    destruct (wrap_int (n0 * 3) <? 0)%Z; [leafAQ|].
-    destruct (max_alloc <? _)%N; leafAQ.
+  destruct (wrap_int (n * 3) <=? Z.of_nat (len (b :: w)))%Z; [|apply allQ_read_str_slow; exact E].
+  destruct (str_scan _ true _ _ _); try leafAQ.
+  - destruct (len (b :: w) <? off)%nat; [leafAQ|cbn [allQ]; apply Hs].
+  - cbn [allQ]. split; [leafQ|apply allQ_read_str_slow; exact E].
 Qed.
 
 Lemma allQ_bnd_Q : forall (A B : Type) (r : out A) (k : A -> st -> out B) b1 b2 s0,
@@ -322,27 +336,50 @@ Proof. intros s. unfold read_string. solveH. Qed.
 Lemma allQ_read_bytes : forall s, allQ 3 s (read_bytes fx s).
 Proof. intros s. unfold read_bytes. solveH. Qed.
 
-Lemma allQ_convert : forall dest r s, allQ 0 s (convert orc r dest s).
+Lemma allQ_convert : forall dest r s, allQ 0 s (convert orc fx r dest s).
 Proof.
   induction dest; intros r s; destruct r; cbn [convert]; solveH;
-  try (match goal with H : forall r s, allQ 0 s (convert _ r ?e s) |- allQ _ ?s0 (bnd (convert _ _ ?e ?x) _) =>
+  try (match goal with H : forall r s, allQ 0 s (convert _ _ r ?e s) |- allQ _ ?s0 (bnd (convert _ _ _ ?e ?x) _) =>
          eapply allQ_bnd_ex; [eapply (allQ_weaken _ _ _ _ s0 x); [solveQ|apply H]|intros ? ? ?|num] end; solveH).
 Qed.
 
-Lemma allQ_read_reference : forall dest s, allQ 1 s (read_reference orc dest s).
+Lemma allQ_read_reference : forall dest s, allQ 1 s (read_reference orc fx dest s).
 Proof.
   intros dest s. unfold read_reference. open_primsQ.
   destruct ((z <? 0)%Z || _); [leafAQ|].
   destruct (nth_error _ _); [|leafAQ].
+  match goal with |- allQ _ _ (if ?c then _ else _) => destruct c end; [leafAQ|].
   bndQ s0 allQ_convert. destruct a; leafAQ.
 Qed.
 
 Lemma allQ_counted : forall m per np n s, allQ 0 s (counted fx m per np n s).
 Proof. intros m per np n s. unfold counted. solveH; destruct m; leafAQ. Qed.
 
+(* the ROk leaves of a tree *)
+Fixpoint allLeaf {A} (Pr : st -> Prop) (r : out A) : Prop :=
+  match r with
+  | ROk _ s => Pr s
+  | RHaz _ _ k => allLeaf Pr k
+  | _ => True
+  end.
+Lemma allQ_neg_leaf : forall (A : Type) (r : out A) b x, allQ b x r -> b < 0 -> allLeaf (fun s' => (P s' < P x)%nat) r.
+Proof.
+  intros A r. induction r; intros b x H Hb; cbn in *; auto.
+  - eapply Q_neg_P; eauto.
+  - destruct H. eauto.
+Qed.
+Lemma allQ_bnd_leaf : forall (A B : Type) (Pr : st -> Prop) (r : out A) (k : A -> st -> out B) b1 b2 s0,
+  allQ b1 s0 r -> allLeaf Pr r -> (forall a s, Q b1 s0 s -> Pr s -> allQ b2 s (k a s)) -> 0 <= b2 -> allQ (b1 + b2) s0 (bnd r k).
+Proof.
+  intros A B Pr r k. induction r; intros b1 b2 s0 H HL Hk Hb; cbn in *; auto.
+  - eapply allQ_weaken; [exact H|]. apply Hk; auto.
+  - destruct H as [H1 H2]. split; [eapply Q_le; [exact H1|lia]|]. apply IHr; auto.
+Qed.
+
 (* loops: an iteration that starts with the decoder not stuck consumes input *)
-Lemma allQ_loop : forall (body : st -> out unit) per p0,
-  (forall x, (P x <= p0)%nat -> stuck x = false -> allQ (-1) x (body x)) ->
+Lemma allQ_loop' : forall (body : st -> out unit) per p0,
+  (forall x, (P x <= p0)%nat -> stuck x = false ->
+     allQ 0 x (body x) /\ allLeaf (fun s' => (P s' < P x)%nat) (body x)) ->
   forall k n s, (P s <= k)%nat -> (P s <= p0)%nat -> allQ 0 s (loop fx k body per n s).
 Proof.
   intros body per p0 Hb. induction k as [|k IH]; intros n s Hk Hp; cbn [loop].
@@ -350,10 +387,17 @@ Proof.
     rewrite (P0_stuck s) in E by lia. discriminate.
   - destruct (n <=? 0)%Z; [leafAQ|]. destruct (stuck s) eqn:E; [leafAQ|].
     destruct (fx_loop fx && has_err s); [leafAQ|].
-    replace 0 with (-1 + 1) by lia. eapply allQ_bnd_Q; [apply Hb; auto| |lia].
-    intros a x Hq. eapply allQ_le; [apply IH|lia].
-    + pose proof (Q_neg_P _ _ _ Hq ltac:(lia)). lia.
-    + pose proof (Q_P _ _ _ Hq). lia.
+    destruct (Hb s Hp E) as [H1 H2].
+    replace 0 with (0 + 0) by lia. eapply allQ_bnd_leaf; [exact H1|exact H2| |lia].
+    intros a x Hq Hlt. cbv beta in Hlt. apply IH; [lia|]. pose proof (Q_P _ _ _ Hq). lia.
+Qed.
+Lemma allQ_loop : forall (body : st -> out unit) per p0,
+  (forall x, (P x <= p0)%nat -> stuck x = false -> allQ (-1) x (body x)) ->
+  forall k n s, (P s <= k)%nat -> (P s <= p0)%nat -> allQ 0 s (loop fx k body per n s).
+Proof.
+  intros body per p0 Hb. apply allQ_loop'. intros x Hx E. split.
+  - eapply allQ_le; [apply Hb; auto|lia].
+  - eapply allQ_neg_leaf; [apply Hb; auto|lia].
 Qed.
 
 Lemma allQ_iter_names : forall (body : bytes -> st -> out unit) per p0,
@@ -366,14 +410,23 @@ Proof.
   intros a x Hq. apply IH. pose proof (Q_P _ _ _ Hq). lia.
 Qed.
 
-Lemma allQ_over_names : forall lf (body : bytes -> st -> out unit) per c p0, (p0 <= lf)%nat ->
-  (forall nm x, (P x <= p0)%nat -> stuck x = false -> allQ (-1) x (body nm x)) ->
+Lemma allQ_over_names' : forall lf (body : bytes -> st -> out unit) per c p0, (p0 <= lf)%nat ->
+  (forall nm x, (P x <= p0)%nat -> stuck x = false ->
+     allQ 0 x (body nm x) /\ allLeaf (fun s' => (P s' < P x)%nat) (body nm x)) ->
   forall s, (P s <= p0)%nat -> allQ 0 s (over_names fx lf body per c s).
 Proof.
   intros lf body per c p0 Hlf Hb s Hp. unfold over_names.
   replace 0 with (0 + 0) by lia. eapply allQ_bnd_Q; [apply (allQ_iter_names _ _ p0); auto| |lia].
-  - intros nm x H1 H2. eapply allQ_le; [apply Hb; auto|lia].
-  - intros a x Hq. pose proof (Q_P _ _ _ Hq). apply (allQ_loop _ _ p0); [intros; apply Hb; auto|lia|lia].
+  - intros nm x H1 H2. apply Hb; auto.
+  - intros a x Hq. pose proof (Q_P _ _ _ Hq). apply (allQ_loop' _ _ p0); [intros; apply Hb; auto|lia|lia].
+Qed.
+Lemma allQ_over_names : forall lf (body : bytes -> st -> out unit) per c p0, (p0 <= lf)%nat ->
+  (forall nm x, (P x <= p0)%nat -> stuck x = false -> allQ (-1) x (body nm x)) ->
+  forall s, (P s <= p0)%nat -> allQ 0 s (over_names fx lf body per c s).
+Proof.
+  intros lf body per c p0 Hlf Hb. apply allQ_over_names'; [exact Hlf|]. intros nm x Hx E. split.
+  - eapply allQ_le; [apply Hb; auto|lia].
+  - eapply allQ_neg_leaf; [apply Hb; auto|lia].
 Qed.
 
 Definition rank (sh : shape) : nat := match sh with SPtr _ => 2 | SIface => 0 | _ => 1 end.
@@ -381,15 +434,20 @@ Definition rank (sh : shape) : nat := match sh with SPtr _ => 2 | SIface => 0 | 
 Section BodyCost.
 Variable rv : shape -> st -> out aval.
 Variable rt : shape -> byte -> st -> out aval.
-Variable lf p0 : nat.
+Variable lf p0 r0 : nat.     (* r0: rank of the shape being decoded *)
 Hypothesis Hlf : (p0 <= lf)%nat.
 Hypothesis Hrv : forall sh x, (P x <= p0)%nat -> allQ 1 x (rv sh x).
 Hypothesis HrvL : forall sh x, (P x <= p0)%nat -> stuck x = false -> allQ (-2) x (rv sh x).
-Hypothesis HrtI : forall t x, (P x <= p0)%nat -> allQ c0 x (rt SIface t x).
-Hypothesis Hrt1 : forall sh t x, (P x <= p0)%nat -> (rank sh <= 1)%nat -> allQ (2 * c0) x (rt sh t x).
+Hypothesis HrtI : forall t x, (P x <= p0)%nat -> (1 <= r0)%nat -> allQ (c0 + 1) x (rt SIface t x).
+Hypothesis Hrt1 : forall sh t x, (P x <= p0)%nat -> (rank sh <= 1)%nat -> (2 <= r0)%nat -> allQ (2 * c0 + 1) x (rt sh t x).
+
+Lemma stuck_add_alloc : forall s n, stuck (add_alloc s n) = stuck s.
+Proof. reflexivity. Qed.
 
 (* rv in sequence position *)
 Ltac bndRv x := match goal with
+  | Hl : stuck ?y = false |- allQ _ ?s0 (bnd (rv _ (add_alloc ?y ?n)) _) =>
+      eapply allQ_bnd_ex; [eapply (allQ_weaken _ _ _ _ s0 x); [solveQ|apply HrvL; [pbound|rewrite stuck_add_alloc; exact Hl]]|intros ? ? ?|num]
   | Hl : stuck x = false |- allQ _ ?s0 (bnd _ _) =>
       eapply allQ_bnd_ex; [eapply (allQ_weaken _ _ _ _ s0 x); [solveQ|apply HrvL; [pbound|exact Hl]]|intros ? ? ?|num]
   | |- allQ _ ?s0 (bnd _ _) =>
@@ -406,8 +464,8 @@ Ltac stepI :=
   | |- allQ _ _ (unit_of _) => unfold unit_of
   | |- allQ _ _ (bnd (rv _ ?x) _) => bndRv x
   | |- allQ _ _ (rv _ ?x) => tailRv x
-  | |- allQ _ _ (bnd (read_reference _ _ ?x) _) => bndQ x allQ_read_reference
-  | |- allQ _ _ (read_reference _ _ ?x) => tailQ x allQ_read_reference
+  | |- allQ _ _ (bnd (read_reference _ _ _ ?x) _) => bndQ x allQ_read_reference
+  | |- allQ _ _ (read_reference _ _ _ ?x) => tailQ x allQ_read_reference
   | |- allQ _ _ (bnd (counted _ _ _ _ _ ?x) _) => bndQ x allQ_counted
   | |- allQ _ _ (bnd (read_string _ ?x) _) => bndQ x allQ_read_string
   | |- allQ _ _ (bnd (read_bytes _ ?x) _) => bndQ x allQ_read_bytes
@@ -453,9 +511,6 @@ Proof.
     + pose proof (Q_P _ _ _ (Q_set_error y KDecode)). lia.
 Qed.
 
-Ltac loopQ x := match goal with |- allQ _ ?s0 (bnd (loop _ _ _ _ _ ?x) _) =>
-  eapply allQ_bnd_ex; [eapply (allQ_weaken _ _ _ _ s0 x); [solveQ|apply (allQ_loop _ _ p0); [intros ? ? ?| |]]|intros ? ? ?|num] end.
-
 Lemma allQ_read_struct : forall sh s, (P s <= p0)%nat -> allQ 12 s (read_struct registry fx rv lf sh s).
 Proof.
   intros sh s Hp. unfold read_struct. solveI.
@@ -488,18 +543,18 @@ Proof.
   eapply allQ_le; [apply allQ_decode_field_live; assumption|lia].
 Qed.
 
-Lemma allQ_decode_error : forall tag s, (P s <= p0)%nat -> allQ c0 s (decode_error rt tag s).
+Lemma allQ_decode_error : forall tag s, (P s <= p0)%nat -> (1 <= r0)%nat -> allQ (c0 + 1) s (decode_error rt tag s).
 Proof.
-  intros tag s Hp. unfold decode_error. destruct (has_err s); [cbn [allQ]; eapply Q_le; [apply Q_refl|unfold c0; lia]|].
-  replace c0 with (c0 + 0) by lia. eapply allQ_bnd_Q; [apply HrtI; exact Hp| |lia]. intros. leafAQ.
+  intros tag s Hp Hr0. unfold decode_error. destruct (has_err s); [cbn [allQ]; eapply Q_le; [apply Q_refl|unfold c0; lia]|].
+  replace (c0 + 1) with (c0 + 1 + 0) by lia. eapply allQ_bnd_Q; [apply HrtI; [exact Hp|exact Hr0]| |lia]. intros. leafAQ.
 Qed.
 
-Lemma allQ_default_decode : forall sh tag s, (P s <= p0)%nat ->
-  allQ (c0 + 20) s (default_decode orc registry fx rv rt lf sh tag s).
+Lemma allQ_default_decode : forall sh tag s, (P s <= p0)%nat -> (1 <= r0)%nat ->
+  allQ (c0 + 21) s (default_decode orc registry fx rv rt lf sh tag s).
 Proof.
-  intros sh tag s Hp. unfold default_decode. solveI.
+  intros sh tag s Hp Hr0. unfold default_decode. solveI.
   - eapply allQ_bnd_ex; [apply allQ_read_struct; exact Hp|intros ? ? ?|unfold c0; lia]. solveI.
-  - eapply allQ_le; [apply allQ_decode_error; exact Hp|lia].
+  - eapply allQ_le; [apply allQ_decode_error; [exact Hp|exact Hr0]|lia].
 Qed.
 
 Ltac stepJ :=
@@ -509,9 +564,9 @@ Ltac stepJ :=
   | |- allQ _ ?s0 (read_object _ _ _ ?x) =>
       eapply allQ_le; [eapply (allQ_weaken _ _ _ _ s0 x); [solveQ|apply allQ_read_object; pbound]|num]
   | |- allQ _ ?s0 (default_decode _ _ _ _ _ _ _ _ ?x) =>
-      eapply allQ_le; [eapply (allQ_weaken _ _ _ _ s0 x); [solveQ|apply allQ_default_decode; pbound]|num]
+      eapply allQ_le; [eapply (allQ_weaken _ _ _ _ s0 x); [solveQ|apply allQ_default_decode; [pbound|assumption]]|num]
   | |- allQ _ ?s0 (decode_error _ _ ?x) =>
-      eapply allQ_le; [eapply (allQ_weaken _ _ _ _ s0 x); [solveQ|apply allQ_decode_error; pbound]|num]
+      eapply allQ_le; [eapply (allQ_weaken _ _ _ _ s0 x); [solveQ|apply allQ_decode_error; [pbound|assumption]]|num]
   | |- allQ _ ?s0 (bnd (loop _ _ _ _ _ ?x) _) =>
       assert ((P x <= p0)%nat) by pbound;
       eapply allQ_bnd_ex; [eapply (allQ_weaken _ _ _ _ s0 x); [solveQ|apply (allQ_loop _ _ p0); [intros ? ? ?|lia|assumption]]|intros ? ? ?|num]
@@ -539,6 +594,7 @@ Qed.
 
 Ltac stepK :=
   match goal with
+  | |- allQ _ _ (bnd (if ?c then _ else _) _) => destruct c
   | |- allQ _ _ (bnd (str_u _ ?x) _) => bndQ x allQ_str_u
   | |- allQ _ _ (bnd (str_s _ ?x) _) => bndQ x allQ_str_s
   | |- allQ _ ?s0 (list_iface _ _ _ ?x) =>
@@ -559,24 +615,384 @@ Ltac solveK := repeat stepK.
 
 Lemma allQ_dec_iface : forall tag s, (P s <= p0)%nat -> allQ c0 s (dec_iface orc registry fx rv lf tag s).
 Proof. intros tag s Hp. unfold dec_iface, c0. solveK. Qed.
-Lemma allQ_dec_num : forall k tag s, (P s <= p0)%nat -> allQ (2 * c0) s (dec_num orc registry fx rv rt lf k tag s).
-Proof. intros k tag s Hp. unfold dec_num, c0. solveK; destruct k; solveK. Qed.
-Lemma allQ_dec_string : forall tag s, (P s <= p0)%nat -> allQ (2 * c0) s (dec_string orc registry fx rv rt lf tag s).
-Proof. intros tag s Hp. unfold dec_string, c0. solveK. Qed.
+Lemma allQ_dec_num : forall k tag s, (P s <= p0)%nat -> (1 <= r0)%nat -> allQ (2 * c0) s (dec_num orc registry fx rv rt lf k tag s).
+Proof. intros k tag s Hp Hr0. unfold dec_num, c0. solveK; destruct k; solveK. Qed.
+Lemma allQ_dec_string : forall tag s, (P s <= p0)%nat -> (1 <= r0)%nat -> allQ (2 * c0) s (dec_string orc registry fx rv rt lf tag s).
+Proof. intros tag s Hp Hr0. unfold dec_string, c0. solveK. Qed.
 Lemma allQ_uint8_slice : forall s, (P s <= p0)%nat -> allQ 6 s (uint8_slice fx rv lf s).
 Proof. intros s Hp. unfold uint8_slice. solveK. Qed.
-Lemma allQ_dec_bytes : forall tag s, (P s <= p0)%nat -> allQ (2 * c0) s (dec_bytes orc registry fx rv rt lf tag s).
+Lemma allQ_dec_bytes : forall tag s, (P s <= p0)%nat -> (1 <= r0)%nat -> allQ (2 * c0) s (dec_bytes orc registry fx rv rt lf tag s).
 Proof.
-  intros tag s Hp. unfold dec_bytes, c0. solveK.
+  intros tag s Hp Hr0. unfold dec_bytes, c0. solveK.
   eapply allQ_le; [apply allQ_uint8_slice; exact Hp|lia].
 Qed.
-Lemma allQ_dec_big : forall b tag s, (P s <= p0)%nat -> allQ (2 * c0) s (dec_big orc registry fx rv rt lf b tag s).
-Proof. intros b tag s Hp. unfold dec_big, c0. solveK; destruct b; solveK. Qed.
-Lemma allQ_dec_time : forall tag s, (P s <= p0)%nat -> allQ (2 * c0) s (dec_time orc registry fx rv rt lf tag s).
-Proof. intros tag s Hp. unfold dec_time, c0. solveK. Qed.
-Lemma allQ_dec_uuid : forall tag s, (P s <= p0)%nat -> allQ (2 * c0) s (dec_uuid orc registry fx rv rt lf tag s).
-Proof. intros tag s Hp. unfold dec_uuid, c0. solveK. Qed.
-Lemma allQ_dec_slice : forall e tag s, (P s <= p0)%nat -> allQ (2 * c0) s (dec_slice orc registry fx rv rt lf e tag s).
-Proof. intros e tag s Hp. unfold dec_slice, c0. solveK. Qed.
+Lemma allQ_dec_big : forall b tag s, (P s <= p0)%nat -> (1 <= r0)%nat -> allQ (2 * c0) s (dec_big orc registry fx rv rt lf b tag s).
+Proof. intros b tag s Hp Hr0. unfold dec_big, c0. solveK; destruct b; solveK. Qed.
+Lemma allQ_dec_time : forall tag s, (P s <= p0)%nat -> (1 <= r0)%nat -> allQ (2 * c0) s (dec_time orc registry fx rv rt lf tag s).
+Proof. intros tag s Hp Hr0. unfold dec_time, c0. solveK. Qed.
+Lemma allQ_dec_uuid : forall tag s, (P s <= p0)%nat -> (1 <= r0)%nat -> allQ (2 * c0) s (dec_uuid orc registry fx rv rt lf tag s).
+Proof. intros tag s Hp Hr0. unfold dec_uuid, c0. solveK. Qed.
+Lemma allQ_dec_slice : forall e tag s, (P s <= p0)%nat -> (1 <= r0)%nat -> allQ (2 * c0) s (dec_slice orc registry fx rv rt lf e tag s).
+Proof. intros e tag s Hp Hr0. unfold dec_slice, c0. solveK. Qed.
+Lemma allQ_dec_array_list : forall n e s, (P s <= p0)%nat -> allQ 6 s (dec_array_list fx rv lf n e s).
+Proof. intros n e s Hp. unfold dec_array_list. solveK. Qed.
+Lemma allQ_dec_array : forall n e tag s, (P s <= p0)%nat -> (1 <= r0)%nat -> allQ (2 * c0) s (dec_array orc registry fx rv rt lf n e tag s).
+Proof.
+  intros n e tag s Hp Hr0. unfold dec_array, c0. solveK.
+  all: try (eapply allQ_le; [apply allQ_dec_array_list; exact Hp|lia]).
+Qed.
+
+(* the body of decodeObjectAsMap's loop: a field the struct lacks is a hazard before anything is read *)
+Lemma objmap_body : forall f nm x, (P x <= p0)%nat -> stuck x = false ->
+  let body := match flookup nm f with
+              | Some fs => unit_of (rv fs (add_alloc x (size fs)))
+              | None => RHaz HObjMapField x (unit_of (rv SIface x))
+              end in
+  allQ 0 x body /\ allLeaf (fun s' => (P s' < P x)%nat) body.
+Proof.
+  intros f nm x Hp E. cbv zeta. destruct (flookup nm f).
+  - assert (H : allQ (-2) x (unit_of (rv s (add_alloc x (size s))))) by solveI.
+    split; [eapply allQ_le; [exact H|lia]|eapply allQ_neg_leaf; [exact H|lia]].
+  - assert (H : allQ (-2) x (unit_of (rv SIface x))) by solveI.
+    cbn [allQ allLeaf]. split; [split; [apply Q_refl|eapply allQ_le; [exact H|lia]]|eapply allQ_neg_leaf; [exact H|lia]].
+Qed.
+
+Lemma allQ_dec_map : forall ks vs tag s, (P s <= p0)%nat -> (1 <= r0)%nat -> allQ (2 * c0) s (dec_map orc registry fx rv rt lf ks vs tag s).
+Proof.
+  intros ks vs tag s Hp Hr0. unfold dec_map, c0.
+  destruct (tag_is tag "n" || tag_is tag "e"); [solveK|].
+  destruct (tag_is tag "m"); [solveK|].
+  destruct (tag_is tag "a"); [solveK|].
+  destruct (tag_is tag "o"); [|solveK].
+  destruct (obj_as_map_ok ks vs); [|solveK].
+  eapply allQ_le; [apply (allQ_get_class _ 20); [lia| |exact Hp]|lia].
+  intros c x Hx. cbv zeta.
+  set (s2 := add_ref _ _).
+  assert (H2 : Q 0 x s2) by (unfold s2; eapply Q_le; [solveQ|lia]).
+  assert (Hp2 : (P s2 <= p0)%nat) by (pose proof (Q_P _ _ _ H2); lia).
+  assert (Hbody : allQ 10 x
+    match ctype c with
+    | Some t =>
+        bnd (over_names fx lf (fun nm x0 => match flookup nm (struct_fields t) with
+                                            | Some fs => unit_of (rv fs (add_alloc x0 (size fs)))
+                                            | None => RHaz HObjMapField x0 (unit_of (rv SIface x0))
+                                            end) 0 c s2)
+          (fun _ s3 => ROk (AOther false) (skip1 s3))
+    | None => bnd (over_names fx lf (fun _ x0 => unit_of (rv SIface x0)) 0 c s2)
+                (fun _ s3 => ROk (AOther false) (skip1 s3))
+    end).
+  { destruct (ctype c).
+    - eapply allQ_bnd_ex; [eapply (allQ_weaken _ _ _ _ x s2); [exact H2|apply (allQ_over_names' lf _ _ _ p0 Hlf); [|exact Hp2]]|intros ? ? ?|num].
+      + intros nm y Hy Ey. apply objmap_body; assumption.
+      + solveK.
+    - solveK. }
+  destruct ks; try (eapply allQ_le; [exact Hbody|lia]).
+  destruct (0 <? _)%N; [|eapply allQ_le; [exact Hbody|lia]].
+  cbn [allQ]. split; [eapply Q_le; [exact H2|lia]|eapply allQ_le; [exact Hbody|lia]].
+Qed.
+
+Lemma allQ_dec_struct : forall nm f tag s, (P s <= p0)%nat -> (1 <= r0)%nat -> allQ (2 * c0) s (dec_struct orc registry fx rv rt lf nm f tag s).
+Proof. intros nm f tag s Hp Hr0. unfold dec_struct, c0. solveK. Qed.
+
+Lemma rank_ptr_core : forall e, (rank (snd (ptr_core e)) <= 1)%nat.
+Proof.
+  induction e; cbn; try lia. destruct (ptr_core e) as [a c]. cbn in *. exact IHe.
+Qed.
+
+Lemma allQ_dec_ptr : forall e tag s, (P s <= p0)%nat -> (2 <= r0)%nat -> allQ (3 * c0) s (dec_ptr orc fx rt e tag s).
+Proof.
+  intros e tag s Hp Hr0. unfold dec_ptr, c0. solveK.
+  pose proof (rank_ptr_core e) as Hr. destruct (ptr_core e) as [a c]. cbn [snd] in Hr.
+  eapply allQ_bnd_ex; [eapply (allQ_weaken _ _ _ _ s (add_alloc s (size e + a)%N)); [solveQ|apply Hrt1; [pbound|exact Hr|exact Hr0]]|intros ? ? ?|unfold c0; lia].
+  solveK.
+Qed.
+
+Lemma allQ_dec_tag_body : forall sh tag s, (P s <= p0)%nat -> r0 = rank sh ->
+  allQ (c0 * (Z.of_nat (rank sh) + 1)) s (dec_tag_body orc registry fx rv rt lf sh tag s).
+Proof.
+  intros sh tag s Hp Hr0. destruct sh; cbn [dec_tag_body rank] in *.
+  all: try (eapply allQ_le; [first [apply allQ_dec_iface|apply allQ_dec_num|apply allQ_dec_string|apply allQ_dec_bytes
+     |apply allQ_dec_big|apply allQ_dec_time|apply allQ_dec_uuid|apply allQ_dec_slice|apply allQ_dec_array
+     |apply allQ_dec_map|apply allQ_dec_struct|apply allQ_dec_ptr]; first [exact Hp|lia]|unfold c0; lia]).
+  exact I.
+Qed.
 End BodyCost.
+
+(* fuel: three levels of decoding per unit of potential *)
+Definition need (sh : shape) (s : st) : nat := (3 * P s + rank sh + 1)%nat.
+Definition cost (sh : shape) : Z := c0 * (Z.of_nat (rank sh) + 1) + 1.
+
+Lemma cost_le : forall sh, cost sh <= 3 * c0 + 1.
+Proof. intros sh. unfold cost, c0. destruct sh; cbn [rank]; lia. Qed.
+
+Lemma allQ_dec_tag : forall fuel sh tag s, (need sh s <= fuel)%nat ->
+  allQ (cost sh) s (dec_tag orc registry fx fuel sh tag s).
+Proof.
+  induction fuel as [|f IH]; intros sh tag s Hf; [unfold need in Hf; lia|]. cbn [dec_tag]. unfold cost.
+  replace (c0 * (Z.of_nat (rank sh) + 1) + 1) with (1 + c0 * (Z.of_nat (rank sh) + 1)) by lia.
+  eapply (allQ_weaken _ _ _ _ s (add_steps s 1)); [apply Q_add_steps1|].
+  assert (HP1 : (P (add_steps s 1) <= P s)%nat) by (apply (Q_P _ _ _ (Q_add_steps1 s))).
+  assert (Hlive : forall sh' x, (P x <= P s)%nat -> stuck x = false ->
+            allQ (-2) x (let '(t, s1) := next_byte x in dec_tag orc registry fx f sh' t s1)).
+  { intros sh' x Hx E.
+    pose proof (Q_next_byte_live x E) as Hn. destruct (next_byte x) as [t x1]. cbn [snd] in Hn.
+    eapply allQ_le; [eapply (allQ_weaken _ _ _ _ x x1); [exact Hn|apply IH]|].
+    - pose proof (Q_neg_P _ _ _ Hn ltac:(unfold K; lia)). unfold need in *. destruct sh'; cbn [rank]; lia.
+    - pose proof (cost_le sh'). unfold K, c0 in *. lia. }
+  apply (allQ_dec_tag_body (fun sh' s' => if stuck s' then ROk ANil (add_steps (add_alloc s' (stuck_alloc sh')) 1)
+                                          else let '(t, s1) := next_byte s' in dec_tag orc registry fx f sh' t s1)
+           (dec_tag orc registry fx f) f (P s) (rank sh)); try exact HP1; try reflexivity.
+  - unfold need in Hf. lia.
+  - intros sh' x Hx. destruct (stuck x) eqn:E; [leafAQ|]. eapply allQ_le; [apply Hlive; auto|lia].
+  - intros sh' x Hx E. rewrite E. apply Hlive; auto.
+  - intros t x Hx Hr0. eapply allQ_le; [apply IH|unfold cost, c0; cbn [rank]; lia].
+    unfold need in *. cbn [rank]. lia.
+  - intros sh' t x Hx Hr Hr0. eapply allQ_le; [apply IH|unfold cost, c0; lia].
+    unfold need in *. lia.
+Qed.
+
+Lemma allQ_dec_val : forall fuel sh s, (3 * P s + 3 <= fuel)%nat -> allQ 1 s (dec_val orc registry fx fuel sh s).
+Proof.
+  intros fuel sh s Hf. unfold dec_val. destruct (stuck s) eqn:E; [leafAQ|].
+  pose proof (Q_next_byte_live s E) as Hn. destruct (next_byte s) as [t x1]. cbn [snd] in Hn.
+  eapply allQ_le; [eapply (allQ_weaken _ _ _ _ s x1); [exact Hn|apply allQ_dec_tag]|].
+  - pose proof (Q_neg_P _ _ _ Hn ltac:(unfold K; lia)). unfold need. destruct sh; cbn [rank]; lia.
+  - pose proof (cost_le sh). unfold K, c0 in *. lia.
+Qed.
+(* with input left, a decode pays for itself *)
+Lemma allQ_dec_val_live : forall fuel sh s, (3 * P s + 3 <= fuel)%nat -> stuck s = false ->
+  allQ (-2) s (dec_val orc registry fx fuel sh s).
+Proof.
+  intros fuel sh s Hf E. unfold dec_val. rewrite E.
+  pose proof (Q_next_byte_live s E) as Hn. destruct (next_byte s) as [t x1]. cbn [snd] in Hn.
+  eapply allQ_le; [eapply (allQ_weaken _ _ _ _ s x1); [exact Hn|apply allQ_dec_tag]|].
+  - pose proof (Q_neg_P _ _ _ Hn ltac:(unfold K; lia)). unfold need. destruct sh; cbn [rank]; lia.
+  - pose proof (cost_le sh). unfold K, c0 in *. lia.
+Qed.
 End Cost.
+
+(* ------------------------------------------------------------------ reading the bounds *)
+
+Lemma P_init : forall bs smp, P (init bs smp) = S (len bs).
+Proof. intros. unfold P, stuck, has_err, init. cbn. destruct bs; cbn; lia. Qed.
+
+Lemma allQ_all_states : forall (A : Type) (r : out A) b s0, allQ b s0 r -> all_states (Q b s0) r.
+Proof. intros A r. induction r; intros b s0 H; cbn in *; auto. destruct H. split; auto. Qed.
+
+Lemma allQ_no_fuel : forall (A : Type) chk (r : out A) b s0, allQ b s0 r -> interp chk r <> VFuel.
+Proof.
+  intros A chk r. induction r; intros b s0 H; cbn in *; try discriminate; try contradiction.
+  destruct H as [_ H]. destruct (chk h); [eauto|discriminate].
+Qed.
+
+(* what a state within budget b of the initial state satisfies *)
+Lemma Q_init_bounds : forall b bs smp s', Q b (init bs smp) s' ->
+  (Z.of_N (steps s') <= K * (Z.of_nat (len bs) + 1) + b + Z.of_N (spin s')) /\
+  (spin s' <= excess s')%N.
+Proof.
+  intros b bs smp s' [HR [Hw [Hpsi Hsx]]].
+  assert (E1 : psi (init bs smp) = K * Z.of_nat (S (len bs))).
+  { unfold psi. rewrite P_init. unfold wk, init. cbn [steps spin]. lia. }
+  assert (E2 : sx (init bs smp) = 0) by reflexivity.
+  rewrite E1 in Hpsi. rewrite E2 in Hsx. unfold psi, wk in Hpsi. unfold sx in Hsx.
+  assert (0 <= K * Z.of_nat (P s')) by (unfold K; lia).
+  split; [|lia]. unfold K in *. lia.
+Qed.
+
+Lemma fuel_for_enough : forall reg bs d, (3 * S (len bs) + 3 <= fuel_for reg bs d)%nat.
+Proof. intros. unfold fuel_for. nia. Qed.
+
+(* ------------------------------------------------------------------ the RPC wrappers *)
+Section WrapCost.
+Variable orc : okind -> bytes -> option bool.
+Variable registry : list (bytes * shape).
+Variable fx : fixes.
+Variable fuel p0 : nat.
+Hypothesis Hfuel : (3 * p0 + 3 <= fuel)%nat.
+
+Ltac num := first [lia|unfold c0, K; lia|cbn; lia].
+
+Ltac valQ := match goal with |- allQ _ ?s0 (bnd (dec_val _ _ _ _ _ ?x) _) =>
+  assert ((P x <= p0)%nat) by pbound;
+  eapply allQ_bnd_ex; [eapply (allQ_weaken _ _ _ _ s0 x); [solveQ|apply allQ_dec_val; lia]|intros ? ? ?|num] end.
+
+Lemma allQ_header_simple : forall (h : aval) (k : bool -> out bool) b s0,
+  (forall v, allQ b s0 (k v)) -> allQ b s0 (header_simple orc h k).
+Proof.
+  intros h k b s0 Hk. unfold header_simple. destruct h; auto.
+  destruct (last_of _ _ _) as [v|]; auto. destruct v; auto.
+  unfold ask. destruct (orc _ _); [apply Hk|exact I].
+Qed.
+
+Lemma allQ_read_header : forall s (k : byte -> aval -> st -> out bool) b, 0 <= b -> (P s <= p0)%nat ->
+  (forall t h x, (P x <= p0)%nat -> allQ b x (k t h x)) -> allQ (3 + b) s (read_header orc registry fx fuel s k).
+Proof.
+  intros s k b Hb Hp Hk. unfold read_header. open_primsQ. destruct (tag_is b0 "H").
+  - valQ. open_primsQ.
+    match goal with |- allQ _ ?a (k _ _ ?y) => eapply allQ_le; [eapply (allQ_weaken _ _ _ _ a y); [solveQ|apply Hk; pbound]|num] end.
+  - match goal with |- allQ _ ?a (k _ _ ?y) => eapply allQ_le; [eapply (allQ_weaken _ _ _ _ a y); [solveQ|apply Hk; pbound]|num] end.
+Qed.
+
+Lemma stuck_add_alloc' : forall s n, stuck (add_alloc s n) = stuck s.
+Proof. reflexivity. Qed.
+
+Lemma allQ_args_loop : forall m k i n s, (P s <= k)%nat -> (P s <= p0)%nat ->
+  allQ 0 s (args_loop orc registry fx fuel k m i n s).
+Proof.
+  intros m. induction k as [|k IH]; intros i n s Hk Hp; cbn [args_loop].
+  - destruct (n <=? 0)%Z; [leafAQ|]. destruct (stuck s) eqn:E; [leafAQ|].
+    rewrite (P0_stuck s) in E by lia. discriminate.
+  - destruct (n <=? 0)%Z; [leafAQ|]. destruct (stuck s) eqn:E; [leafAQ|].
+    destruct (fx_loop fx && has_err s); [leafAQ|].
+    set (x := add_alloc s _).
+    assert (Hx : Q 0 s x) by apply Q_add_alloc.
+    pose proof (Q_P _ _ _ Hx) as HPx.
+    replace 0 with (0 + (-2 + 2)) by lia. eapply (allQ_weaken _ _ _ _ s x); [exact Hx|].
+    eapply allQ_bnd_Q; [apply allQ_dec_val_live; [lia|unfold x; rewrite stuck_add_alloc'; exact E]| |lia].
+    intros a y Hq. eapply allQ_le; [apply IH|lia].
+    + pose proof (Q_neg_P _ _ _ Hq ltac:(lia)). lia.
+    + pose proof (Q_P _ _ _ Hq). lia.
+Qed.
+
+Lemma allQ_decode_arguments : forall missing m s, (P s <= p0)%nat ->
+  allQ (3 * c0 + 10) s (decode_arguments orc registry fx fuel missing m s).
+Proof.
+  intros missing m s Hp. unfold decode_arguments. open_primsQ. destruct (negb (tag_is b "a")); [leafAQ|].
+  destruct missing.
+  - match goal with |- allQ _ ?a (bnd (dec_tag _ _ _ _ _ _ ?y) _) =>
+      assert (Hx : (P y <= p0)%nat) by pbound;
+      eapply allQ_bnd_ex; [eapply (allQ_weaken _ _ _ _ a y); [solveQ|apply allQ_dec_tag]|intros ? ? ?|] end.
+    + unfold need. cbn [rank]. lia.
+    + leafAQ.
+    + unfold cost, c0. cbn [rank]. lia.
+  - open_primsQ.
+    match goal with |- allQ _ ?a (bnd (counted _ _ _ _ _ ?y) _) =>
+      eapply allQ_bnd_ex; [eapply (allQ_weaken _ _ _ _ a y); [solveQ|apply allQ_counted]|intros ? ? ?|num] end.
+    match goal with |- allQ _ ?s0 (bnd (args_loop _ _ _ _ _ _ _ _ ?x) _) =>
+      assert (Hx : (P x <= p0)%nat) by pbound;
+      eapply allQ_bnd_ex; [eapply (allQ_weaken _ _ _ _ s0 x); [solveQ|apply allQ_args_loop; [lia|exact Hx]]|intros ? ? ?|num] end.
+    leafAQ.
+Qed.
+
+Lemma allQ_service_decode : forall ms missing bs, (S (len bs) <= p0)%nat ->
+  allQ (3 * c0 + 20) (init bs false) (service_decode orc registry fx fuel ms missing bs).
+Proof.
+  intros ms missing bs Hp. unfold service_decode. destruct bs as [|b0 bs']; [leafAQ|].
+  set (bs := b0 :: bs') in *.
+  assert (Hp0 : (P (init bs false) <= p0)%nat) by (rewrite P_init; exact Hp).
+  eapply allQ_le; [apply (allQ_read_header _ _ (3 * c0 + 12)); [unfold c0; lia|exact Hp0|]|lia].
+  intros t h x Hx. destruct (tag_is t "C"); [|destruct (tag_is t "z"); leafAQ].
+  apply allQ_header_simple. intros smp.
+  set (x1 := if smp then set_simple x true else x).
+  assert (H1 : Q 0 x x1) by (unfold x1; destruct smp; [apply Q_set_simple|apply Q_refl]).
+  pose proof (Q_P _ _ _ H1) as HP1.
+  eapply allQ_bnd_ex; [eapply (allQ_weaken _ _ _ _ x x1); [exact H1|apply allQ_dec_val; lia]|intros nv y Hq|unfold c0; lia].
+  pose proof (Q_P _ _ _ Hq) as HPy.
+  destruct nv; try exact I. destruct (negb (ascii s)); [exact I|].
+  destruct (find_method _ _).
+  - eapply allQ_le; [apply allQ_decode_arguments; lia|lia].
+  - destruct missing; [eapply allQ_le; [apply allQ_decode_arguments; lia|lia]|leafAQ].
+Qed.
+
+Lemma allQ_results_loop : forall rts n s, (P s <= p0)%nat ->
+  allQ (Z.of_nat (len rts)) s (results_loop orc registry fx fuel rts n s).
+Proof.
+  induction rts as [|sh r IH]; intros n s Hp; cbn [results_loop]; [leafAQ|].
+  destruct (n <=? 0)%Z; [leafAQ|].
+  set (x := add_alloc s _). assert (Hx : Q 0 s x) by apply Q_add_alloc. pose proof (Q_P _ _ _ Hx).
+  replace (Z.of_nat (len (sh :: r))) with (0 + (1 + Z.of_nat (len r))) by (cbn [len]; lia).
+  eapply (allQ_weaken _ _ _ _ s x); [exact Hx|].
+  eapply allQ_bnd_Q; [apply allQ_dec_val; lia| |lia].
+  intros a y Hq. apply IH. pose proof (Q_P _ _ _ Hq). lia.
+Qed.
+
+Lemma allQ_client_decode : forall rts bs, (S (len bs) <= p0)%nat ->
+  allQ (3 * c0 + 20 + Z.of_nat (len rts)) (init bs false) (client_decode orc registry fx fuel rts bs).
+Proof.
+  intros rts bs Hp. unfold client_decode.
+  assert (Hp0 : (P (init bs false) <= p0)%nat) by (rewrite P_init; exact Hp).
+  eapply allQ_le; [apply (allQ_read_header _ _ (3 * c0 + 12 + Z.of_nat (len rts))); [unfold c0; lia|exact Hp0|]|lia].
+  intros t h x Hx. destruct (tag_is t "R").
+  - apply allQ_header_simple. intros smp.
+    set (x1 := if smp then set_simple x true else x).
+    assert (H1 : Q 0 x x1) by (unfold x1; destruct smp; [apply Q_set_simple|apply Q_refl]).
+    pose proof (Q_P _ _ _ H1) as HP1.
+    destruct rts as [|sh [|sh2 r]].
+    + leafAQ.
+    + set (y := add_alloc x1 _). assert (Hy : Q 0 x1 y) by apply Q_add_alloc. pose proof (Q_P _ _ _ Hy).
+      eapply allQ_bnd_ex; [eapply (allQ_weaken _ _ _ _ x y); [solveQ|apply allQ_dec_val; lia]|intros ? ? ?|unfold c0; lia].
+      leafAQ.
+    + open_primsQ. destruct (tag_is b "a").
+      * open_primsQ.
+        match goal with |- allQ _ ?s0 (bnd (results_loop _ _ _ _ _ _ ?y) _) =>
+          assert (Hy : (P y <= p0)%nat) by pbound;
+          eapply allQ_bnd_ex; [eapply (allQ_weaken _ _ _ _ s0 y); [solveQ|apply allQ_results_loop; exact Hy]|intros ? ? ?|unfold c0; cbn [len]; lia] end.
+        destruct (z <? 0)%Z; [cbn [allQ]; split; leafQ|leafAQ].
+      * pose proof (cost_le sh) as Hc. unfold c0 in Hc.
+        match goal with |- allQ _ ?s0 (bnd (dec_tag _ _ _ _ _ _ ?y) _) =>
+          assert (Hy : (P y <= p0)%nat) by pbound;
+          eapply allQ_bnd_ex; [eapply (allQ_weaken _ _ _ _ s0 y); [solveQ|apply allQ_dec_tag]|intros ? ? ?|] end.
+        { unfold need. destruct sh; cbn [rank]; lia. }
+        { cbn [allQ]. eapply Q_le; [apply Q_refl|unfold c0; cbn [len]; lia]. }
+        { unfold c0 in *. cbn [len]. lia. }
+  - destruct (tag_is t "E").
+    + valQ. leafAQ.
+    + destruct (tag_is t "z"); leafAQ.
+Qed.
+End WrapCost.
+
+(* ------------------------------------------------------------------ the statements used by Props/C04.v *)
+
+Definition enough (fuel : nat) (bs : bytes) : Prop := (3 * S (len bs) + 3 <= fuel)%nat.
+
+(* steps within  K*(|bs|+1) + c + spin,  and spin within excess *)
+Definition within (c : Z) (bs : bytes) (s' : st) : Prop :=
+  Z.of_N (steps s') <= K * (Z.of_nat (len bs) + 1) + c + Z.of_N (spin s') /\ (spin s' <= excess s')%N.
+
+Lemma all_states_imp : forall (A : Type) (Pr Pr' : st -> Prop) (r : out A),
+  (forall s, Pr s -> Pr' s) -> all_states Pr r -> all_states Pr' r.
+Proof. intros A Pr Pr' r H. induction r; cbn; auto. intros [H1 H2]. split; auto. Qed.
+
+Theorem unmarshal_bounds : forall orc reg fx fuel bs smp sh, enough fuel bs ->
+  all_states (within 1 bs) (unmarshal orc reg fx fuel bs smp sh) /\
+  forall chk, interp chk (unmarshal orc reg fx fuel bs smp sh) <> VFuel.
+Proof.
+  intros orc reg fx fuel bs smp sh Hf. unfold unmarshal.
+  assert (H : allQ 1 (init bs smp) (dec_val orc reg fx fuel sh (init bs smp))).
+  { apply allQ_dec_val. rewrite P_init. exact Hf. }
+  split.
+  - eapply all_states_imp; [|apply allQ_all_states; exact H]. intros s Hq. apply (Q_init_bounds _ _ _ _ Hq).
+  - intros chk. eapply allQ_no_fuel; exact H.
+Qed.
+
+Theorem service_bounds : forall orc reg fx fuel ms missing bs, enough fuel bs ->
+  all_states (within (3 * c0 + 20) bs) (service_decode orc reg fx fuel ms missing bs) /\
+  forall chk, interp chk (service_decode orc reg fx fuel ms missing bs) <> VFuel.
+Proof.
+  intros orc reg fx fuel ms missing bs Hf.
+  assert (H : allQ (3 * c0 + 20) (init bs false) (service_decode orc reg fx fuel ms missing bs)).
+  { apply (allQ_service_decode orc reg fx fuel (S (len bs))); [exact Hf|lia]. }
+  split.
+  - eapply all_states_imp; [|apply allQ_all_states; exact H]. intros s Hq. apply (Q_init_bounds _ _ _ _ Hq).
+  - intros chk. eapply allQ_no_fuel; exact H.
+Qed.
+
+Theorem client_bounds : forall orc reg fx fuel rts bs, enough fuel bs ->
+  all_states (within (3 * c0 + 20 + Z.of_nat (len rts)) bs) (client_decode orc reg fx fuel rts bs) /\
+  forall chk, interp chk (client_decode orc reg fx fuel rts bs) <> VFuel.
+Proof.
+  intros orc reg fx fuel rts bs Hf.
+  assert (H : allQ (3 * c0 + 20 + Z.of_nat (len rts)) (init bs false) (client_decode orc reg fx fuel rts bs)).
+  { apply (allQ_client_decode orc reg fx fuel (S (len bs))); [exact Hf|lia]. }
+  split.
+  - eapply all_states_imp; [|apply allQ_all_states; exact H]. intros s Hq. apply (Q_init_bounds _ _ _ _ Hq).
+  - intros chk. eapply allQ_no_fuel; exact H.
+Qed.
+
+Lemma fuel_for_is_enough : forall reg bs d, enough (fuel_for reg bs d) bs.
+Proof. intros. unfold enough. apply fuel_for_enough. Qed.
+
+(* the guard: every announced count and length was delivered by the input *)
+Lemma within_no_excess : forall c bs s', within c bs s' -> excess s' = 0%N ->
+  Z.of_N (steps s') <= K * (Z.of_nat (len bs) + 1) + c.
+Proof. intros c bs s' [H1 H2] E. rewrite E in H2. lia. Qed.
